@@ -24,6 +24,7 @@ RULE = (
     "boundary sets (cluster, sub-cluster, L2 coverage) + random otherwise; the inflate monitor checks every "
     "compressed read inflates at most one cluster. Non-trivial: >=2 cluster kinds or non-sequential placement; "
     "distinct = distinct (geometry, kinds, bitmaps) signatures."
+    " Every stream additionally goes through: continuation sequences (read, visit elsewhere or have another user move the shared handles, resume at the earlier end / buffer end), reads under an injected transient backend I/O error followed by a retry on the same object (the failed call may raise; returned bytes must be right), and long reads (whole disk up to 24 MiB, else 6-24 MiB windows)."
 )
 ASSUMPTIONS = [
     "the harness's QCOW2 writer and content model are a faithful reading of docs/interop/qcow2.txt",
